@@ -145,7 +145,7 @@ func vC14Key(k *dns.DNSKEY) string {
 
 type vC14Oracle struct {
 	msg           []byte
-	hids          []int // hash ids (1 SHA-1, 2 SHA-256, 4 SHA-384, 5 SHA-512) whose digest of msg is supplied
+	hids          []int // hash ids (crypto.Hash values) whose digest of msg is supplied
 	ecp, ecv, edv bool
 	none          bool
 }
@@ -154,17 +154,17 @@ func vC14Digests(msg []byte, hids []int) string {
 	var p []string
 	for _, h := range hids {
 		var d []byte
-		switch h {
-		case 1:
+		switch crypto.Hash(h) {
+		case crypto.SHA1:
 			x := sha1.Sum(msg)
 			d = x[:]
-		case 2:
+		case crypto.SHA256:
 			x := sha256.Sum256(msg)
 			d = x[:]
-		case 4:
+		case crypto.SHA384:
 			x := sha512.Sum384(msg)
 			d = x[:]
-		case 5:
+		case crypto.SHA512:
 			x := sha512.Sum512(msg)
 			d = x[:]
 		default:
@@ -175,17 +175,30 @@ func vC14Digests(msg []byte, hids []int) string {
 	return "[" + strings.Join(p, "; ") + "]"
 }
 
+// vC14DSHashID is the hash of a DS digest type (RFC 4034, 4509, 6605) as a crypto.Hash value.
+func vC14DSHashID(dt uint8) []int {
+	switch dt {
+	case 1:
+		return []int{int(crypto.SHA1)}
+	case 2:
+		return []int{int(crypto.SHA256)}
+	case 4:
+		return []int{int(crypto.SHA384)}
+	}
+	return nil
+}
+
 // vC14HashIDFor is the hash a DNSSEC algorithm number signs with (RFC 3110, 5702, 6605).
 func vC14HashIDFor(alg uint8) []int {
 	switch alg {
 	case 5, 7:
-		return []int{1}
+		return []int{int(crypto.SHA1)}
 	case 8, 13:
-		return []int{2}
+		return []int{int(crypto.SHA256)}
 	case 14:
-		return []int{4}
+		return []int{int(crypto.SHA384)}
 	case 10:
-		return []int{5}
+		return []int{int(crypto.SHA512)}
 	}
 	return nil
 }
@@ -1195,7 +1208,7 @@ func vC14CaseDSMatch(tr *vC14Trace, r *rand.Rand) {
 	}
 	o := vC14Oracle{none: true}
 	if pre, ok := vC14DSPreimage(k); ok {
-		o = vC14Oracle{msg: pre, hids: []int{int(dt)}}
+		o = vC14Oracle{msg: pre, hids: vC14DSHashID(dt)}
 	}
 	tr.emit("ds-match-"+shape, fmt.Sprintf("CaseDSMatch %s %d %s %s %s %s", vC14Key(k), dt, vC14Hex(want), o.coq(), vC14Bool(got), vC14Bool(libMatch)), fail,
 		got || libMatch || dt == 1 || dt == 2 || dt == 4, map[string]any{"owner": name, "alg": k.Algorithm, "digest_type": dt, "shape": shape, "sdns": got, "lib": libMatch})
@@ -1325,10 +1338,10 @@ func vC14CaseVerifyDS(tr *vC14Trace, r *rand.Rand) {
 	var km, orcs []string
 	seen := map[string]bool{}
 	var dts []int
-	for _, h := range []int{1, 2, 4} {
+	for _, h := range []uint8{1, 2, 4} {
 		for _, d := range dss {
-			if int(d.DigestType) == h {
-				dts = append(dts, h)
+			if d.DigestType == h {
+				dts = append(dts, vC14DSHashID(h)...)
 				break
 			}
 		}
